@@ -80,6 +80,7 @@ def getCfgEv (j : Json) : Except String (Cfg Json × List (Nat × In Json)) := d
       writer := match (j.getObjValAs? String "writer").toOption with
         | some "closed" => .closed
         | some "blocked" => .blocked
+        | some "stalled" => .stalledUntil ((j.getObjValAs? Nat "stallUntil").toOption.getD 0)
         | _ => .open }
     return (cfg, ev)
   else throw "P must be positive"
@@ -145,6 +146,7 @@ def handle (j : Json) : Except String Json := do
       writer := match (j.getObjValAs? String "writer").toOption with
         | some "closed" => .closed
         | some "blocked" => .blocked
+        | some "stalled" => .stalledUntil ((j.getObjValAs? Nat "stallUntil").toOption.getD 0)
         | _ => .open }
     return outJson (run Verif.Gen.Errors.isRetryableError cfg ev)
   else throw "P must be positive"
